@@ -131,6 +131,10 @@ func (s *Server) directCall(method string, params interface{}, result interface{
 		args = append(args, pv.Elem())
 	}
 	outs := m.Call(args)
+	if s.AfterHandler != nil {
+		// the transport encodes the reply after the handler has returned (and released its locks)
+		s.AfterHandler()
+	}
 	s.directFold()
 	if e := outs[len(outs)-1]; !e.IsNil() {
 		return e.Interface().(error)
